@@ -1,6 +1,6 @@
 \* emission (quick): 7 kind pairs x 1 construction, every behaviour of up to 3 calls, all edges printed
 CONSTANTS NT = 3  NV = 1  MaxLevel = 3
-  KindChoices <- McKindsEmitQuick  TempChoices <- McTempsOne  LinkPairs <- McLinks  RampSteps <- McRamp
+  KindChoices <- McKindsEmitQuick  TempChoices <- McTempsOne  LinkPairs <- McLinks  RampSteps <- McRamp  AuxChoices <- McAuxByKind
 ACTION_CONSTRAINT Emit
 INVARIANT EmitState
 INIT Init
@@ -10,6 +10,7 @@ VIEW View
 INVARIANT TypeOK
 INVARIANT LinksAcyclic
 INVARIANT PathIndependent
+INVARIANT AuxScaleWithDensities
 INVARIANT DensityShrinksBySquare
 INVARIANT DimensionLaw
 INVARIANT AreaGrowsBySquare
